@@ -2,6 +2,7 @@ package main
 
 import (
 	"fmt"
+	"math"
 	"strings"
 
 	"verif/engine/gosx"
@@ -182,7 +183,7 @@ func (c *Ctx) replayMonitor(p *Prog, f gosx.Failure) (bool, string) {
 		goatArgs, _, in := c.mkInputs(ex, p)
 		tt := ex.TT()
 		for name, t := range in {
-			ex.Assume(tt.Eq(t, constLike(tt, t, f.Model[name])))
+			ex.Assume(pinTo(tt, t, f.Model[name]))
 		}
 		ex.Call(ex.Func("verifEvalCall"), p.Src, "main."+p.Entry, uint64(len(p.Results)), gosx.MkSlice(goatArgs...), uint64(p.Mode))
 	}, "z3", 1)
@@ -198,8 +199,18 @@ func constLike(tt *gosx.TermTable, t *gosx.Term, v uint64) *gosx.Term {
 	switch t.W {
 	case gosx.SBool:
 		return tt.Bool(v != 0)
-	case gosx.SFP:
-		return tt.FPBits(v)
 	}
 	return tt.BV(v, t.W)
+}
+
+// pinTo returns the condition "input t has exactly the model value v" (floats: same bits up to NaN payload).
+func pinTo(tt *gosx.TermTable, t *gosx.Term, v uint64) *gosx.Term {
+	if t.W == gosx.SFP {
+		c := tt.FPBits(v)
+		if c.F != c.F {
+			return tt.FPred(gosx.OpFIsNaN, t)
+		}
+		return tt.And(tt.FCmp(gosx.OpFEq, t, c), tt.Eq(tt.FPred(gosx.OpFIsNeg, t), tt.Bool(math.Signbit(c.F))))
+	}
+	return tt.Eq(t, constLike(tt, t, v))
 }
